@@ -289,6 +289,132 @@ class Mix(Stage):
         }
 
 
+XML_PROBE = '<?xml version="1.0"?>\n' + PROBE.replace(
+    "<html ", "<html lang='x' ")
+TEXT_PROBE = "Dear ${foo | 'nofoo'},\n  total: ${1 + 1}  \n-- \nbye\n"
+BODY_BASES = {"html": ("PageTemplate", PROBE),
+              "xml": ("PageTemplate", XML_PROBE),
+              "text": ("PageTextTemplate", TEXT_PROBE)}
+
+
+def mutate_body(body, kind, pos):
+    """A second body that differs from ``body`` in one small way."""
+    def nth(chars):
+        idx = [i for i, c in enumerate(body) if c in chars]
+        return idx[pos % len(idx)] if idx else None
+    if kind == "crlf_all":
+        return body.replace("\n", "\r\n")
+    if kind == "cr_all":
+        return body.replace("\n", "\r")
+    if kind in ("crlf_one", "cr_one"):
+        i = nth("\n")
+        return body[:i] + ("\r\n" if kind == "crlf_one" else "\r") + \
+            body[i + 1:]
+    if kind == "tab":
+        i = nth(" ")
+        return body[:i] + "\t" + body[i + 1:]
+    if kind == "double_space":
+        i = nth(" ")
+        return body[:i] + "  " + body[i + 1:]
+    if kind == "case":
+        i = nth("sometxlinkbdv")
+        return body[:i] + body[i].upper() + body[i + 1:]
+    if kind == "digit":
+        i = nth("12")
+        return body[:i] + "7" + body[i + 1:]
+    if kind == "combining":
+        i = nth("eo")
+        return body[:i + 1] + "́" + body[i + 1:]
+    if kind == "trailing_newline":
+        return body + "\n"
+    if kind == "trailing_space":
+        return body + " "
+    if kind == "nbsp":
+        i = nth(" ")
+        return body[:i] + " " + body[i + 1:]
+    raise HarnessError("unknown mutation " + kind)
+
+
+BODY_MUTATIONS = ["crlf_all", "cr_all", "crlf_one", "cr_one", "tab",
+                  "double_space", "case", "digit", "combining",
+                  "trailing_newline", "trailing_space", "nbsp"]
+
+
+def _body_job(case):
+    cls, body = BODY_BASES[case["base"]]
+    a = {"cls": cls, "body": body, "options": {"strict": False},
+         "kwargs": {"flag": True, "reach": False}}
+    b = dict(a, body=mutate_body(body, case["kind"], case["pos"]))
+    seq = [a, b] if case["order"] == 0 else [b, a]
+    procs = [[seq[0]], [seq[1]]] if case["two_procs"] else [seq]
+    try:
+        return (case, run_history(procs), None)
+    except HarnessError as e:
+        return (case, None, str(e))
+
+
+class Bodies(Stage):
+    """Two bodies that differ in one small way (a line-ending style, one
+    blank, the case of one letter, a combining mark ...) compiled into one
+    cache directory in either order."""
+    name = "bodies"
+
+    def oracle(self, case):
+        c, bad, err = _body_job(case)
+        if err:
+            raise HarnessError(err)
+        if bad:
+            return Mismatch("bodies:%s/%s" % (case["base"], case["kind"]),
+                            bad[0])
+        return None
+
+    def run(self, tier, seed, check):
+        import hypothesis
+        from hypothesis import HealthCheck, Phase, given, settings
+        from hypothesis import strategies as st
+        cases = []
+        if tier == "quick":
+            # every base x every mutation once, the rest drawn
+            n = 0
+            for base in sorted(BODY_BASES):
+                for kind in BODY_MUTATIONS:
+                    cases.append({"base": base, "kind": kind,
+                                  "pos": seed + n, "order": (seed + n) % 2,
+                                  "two_procs": (seed + n) % 3 == 0})
+                    n += 1
+        else:
+            for base in sorted(BODY_BASES):
+                for kind in BODY_MUTATIONS:
+                    for order in (0, 1):
+                        for two in (False, True):
+                            for pos in range(6):
+                                cases.append({"base": base, "kind": kind,
+                                              "pos": pos + seed,
+                                              "order": order,
+                                              "two_procs": two})
+        ctx = multiprocessing.get_context("fork")
+        with ctx.Pool(NCPU) as pool:
+            res = pool.map(_body_job, cases, chunksize=1)
+        failures, harness, seen = [], [], set()
+        same_out = 0
+        for case, bad, err in res:
+            if err:
+                harness.append(err)
+            elif bad:
+                b = "bodies:%s/%s" % (case["base"], case["kind"])
+                if b not in seen:
+                    seen.add(b)
+                    failures.append((case, Mismatch(b, bad[0])))
+        return {
+            "evaluations": len(cases) * 2,
+            "nontrivial_ids": [json.dumps(c, sort_keys=True) for c in cases],
+            "failures": failures[:6], "harness": harness[:3],
+            "samples": cases[:2],
+            "info": {"pairs": len(cases), "mutations": BODY_MUTATIONS,
+                     "bases": sorted(BODY_BASES)},
+        }
+
+
 CRASH_CFGS = {
     "small": {"cls": "PageTemplate", "body": "<p>${1 + 6}</p>",
               "options": {}, "kwargs": {}},
@@ -553,7 +679,7 @@ CHECK = Check(
           "non-trivial = pair/history with >= 2 configurations, every crash "
           "point, interleavings in which both writers are active before the "
           "first finishes" % len(VARIANTS)),
-    stages=[Pairs(), Mix(), Crash(), Writers()],
+    stages=[Pairs(), Bodies(), Mix(), Crash(), Writers()],
     assumptions=[
         "a crash is process death (os._exit): data already handed to the "
         "kernel survives, Python-level buffers are lost; power-loss "
